@@ -126,6 +126,8 @@ type seqRun struct {
 	fired        map[string]bool // jobs whose delay was fired by the driver
 	everRemoved  map[string]bool // pipelines that did not remain defined throughout the history
 	maxConc      map[string]int  // largest concurrency in force for a pipeline during the history
+	flaggedOrder map[string]bool
+	finishedAt   map[string]int // step at which the model saw the job finished / canceled
 	rec          *core.RecStore
 	snapDir      string
 }
@@ -291,6 +293,7 @@ const (
 	opRead
 	opReload
 	opSave
+	opRaceReload
 )
 
 func (q *seqRun) doOp() {
@@ -319,6 +322,9 @@ func (q *seqRun) doOp() {
 	if q.rec != nil {
 		w[opSave] = q.o.WSave
 	}
+	if q.o.WReload > 0 {
+		w[opRaceReload] = (q.o.WReload + 2) / 3
+	}
 	if len(runningTasks) > 0 {
 		w[opFinish] = q.o.WFinish
 	}
@@ -339,7 +345,7 @@ func (q *seqRun) doOp() {
 	}
 	pick := q.r.Intn(total)
 	var op opKind
-	for _, k := range []opKind{opSchedule, opFinish, opCancel, opFire, opStopRel, opRead, opReload, opSave} {
+	for _, k := range []opKind{opSchedule, opFinish, opCancel, opFire, opStopRel, opRead, opReload, opSave, opRaceReload} {
 		if pick < w[k] {
 			op = k
 			break
@@ -385,6 +391,8 @@ func (q *seqRun) doOp() {
 		q.settle(nil)
 	case opReload:
 		q.opReload()
+	case opRaceReload:
+		q.opRaceReload()
 	case opSave:
 		q.journal("save")
 		live := q.view
@@ -776,9 +784,26 @@ func (q *seqRun) compare(v core.View) {
 		if q.o.Retention && seen[j.ID] == 0 {
 			// retention may only have removed finished jobs: every accepted job is reported until then
 			if mj := q.m.Jobs[j.ID]; mj != nil && (mj.State == model.JFinished || mj.State == model.JCanceled) {
+				// retention removes oldest first: an OLDER finished job of the same pipeline must not be reported any more
+				if q.flaggedOrder == nil {
+					q.flaggedOrder = map[string]bool{}
+				}
+				firstSeenGone := !q.flaggedOrder["gone:"+j.ID]
+				q.flaggedOrder["gone:"+j.ID] = true
+				for _, k := range q.jobs {
+					if !firstSeenGone || k.Pipe != j.Pipe || k.Ord >= j.Ord || seen[k.ID] == 0 {
+						continue
+					}
+					// only jobs that were already finished before this step count: the removal happened at a save before
+					// the current operation's effects
+					if fa, ok := q.finishedAt[k.ID]; ok && fa < q.step && !q.flaggedOrder[j.ID] {
+						q.flaggedOrder[j.ID] = true
+						q.find([]string{"C15", "C12"}, "C15:newer-finished-job-gone-while-older-still-reported", "J%d (finished) is not reported any more while the older finished job J%d of the same pipeline still is: retention did not remove oldest first", j.Ord, k.Ord)
+					}
+				}
 				continue
 			}
-			q.find([]string{"C15", "C12"}, "C15:unfinished-job-no-longer-reported", "J%d is waiting or running but is not reported any more (removed by a save with retention?)", j.Ord)
+			q.find([]string{"C15", "C12", "C03"}, "C15:unfinished-job-no-longer-reported", "J%d is waiting or running but is not reported any more (removed by a save with retention?)", j.Ord)
 			continue
 		}
 		q.find([]string{"C15", "C03"}, "C15:job-missing-or-duplicated", "J%d is reported %d times in the job list", j.Ord, seen[j.ID])
@@ -857,6 +882,16 @@ func (q *seqRun) compare(v core.View) {
 	}
 	if q.api != nil {
 		q.compareHTTP(v, flags)
+	}
+	if q.finishedAt == nil {
+		q.finishedAt = map[string]int{}
+	}
+	for _, j := range q.jobs {
+		if mj := q.m.Jobs[j.ID]; mj != nil && (mj.State == model.JFinished || mj.State == model.JCanceled) {
+			if _, ok := q.finishedAt[j.ID]; !ok {
+				q.finishedAt[j.ID] = q.step
+			}
+		}
 	}
 	// per job
 	for _, j := range q.jobs {
@@ -1208,6 +1243,145 @@ func (q *seqRun) noteConcurrency() {
 		q.maxConc = map[string]int{}
 	}
 	for _, sp := range q.specs {
+		if sp.Def.Concurrency > q.maxConc[sp.Name] {
+			q.maxConc[sp.Name] = sp.Def.Concurrency
+		}
+	}
+}
+
+// opRaceReload: a definition reload arrives in the middle of the accept path of a schedule request (at the instant the job
+// id is generated). Accepting a job is atomic w.r.t. reloads: the outcome must be explained completely by "schedule, then
+// reload" or completely by "reload, then schedule" - decision, tasks, start delay and env all from the same definition.
+func (q *seqRun) opRaceReload() {
+	k := q.r.Intn(len(q.specs))
+	oldSpec := q.specs[k]
+	p := oldSpec.Name
+	newSpec, desc := gen.MutateSpec(q.r, oldSpec)
+	if desc == "noop" {
+		q.journal("read")
+		q.settle(nil)
+		return
+	}
+	newSpecs := append([]gen.PipeSpec(nil), q.specs...)
+	newSpecs[k] = newSpec
+	vars := map[string]interface{}{"n": float64(len(q.jobs) + 1)}
+	done := make(chan struct{})
+	fired := false
+	core.SetUUIDHook(func() {
+		fired = true
+		go func() {
+			q.sys.Replace(0, gen.BuildDefs(newSpecs), "racing a schedule request: "+desc)
+			close(done)
+		}()
+		// give the reload the chance to get in if the accept path does not hold the lock here
+		time.Sleep(300 * time.Microsecond)
+	})
+	decideOld := q.m.Decide(p)
+	callSeq := q.sys.Log.NextSeq()
+	t0 := time.Now()
+	id, cls := q.sys.Schedule(0, p, vars, "racer")
+	retSeq := q.sys.Log.NextSeq()
+	core.SetUUIDHook(nil)
+	if !fired {
+		// rejected before an id was generated: the reload simply follows
+		q.sys.Replace(0, gen.BuildDefs(newSpecs), "after a rejected schedule request: "+desc)
+	} else {
+		select {
+		case <-done:
+		case <-time.After(q.o.Watchdog):
+			q.res.Inconclusive = "watchdog: reload racing a schedule request did not return"
+			q.dead = true
+			return
+		}
+	}
+	q.reloaded = true
+	q.noteConcurrencyOf(newSpecs)
+	// order 2: reload first
+	q.m.SetCfg(gen.ModelCfg(newSpecs))
+	decideNew := q.m.Decide(p)
+	q.m.SetCfg(gen.ModelCfg(q.specs))
+	q.journal("schedule %s racing reload (%s) -> %s %s (as-if schedule first: %s, as-if reload first: %s)", p, desc, cls, q.jn(id), decideOld, decideNew)
+	q.res.sit("C16", "schedule racing reload: "+strings.SplitN(desc, " ", 2)[0])
+	matches := func(sp gen.PipeSpec, decide string, oj *core.JobSnap) bool {
+		if (cls == "ok") != model.Accepted(decide) || (cls != "ok" && cls != decide) {
+			return false
+		}
+		if cls != "ok" {
+			return true
+		}
+		if oj == nil {
+			return false
+		}
+		var names []string
+		for _, t := range oj.Tasks {
+			names = append(names, t.Name)
+		}
+		sort.Strings(names)
+		want := append([]string(nil), sp.Graph.Names...)
+		sort.Strings(want)
+		if !eqStr(names, want) || (oj.StartDelay > 0) != (sp.Def.StartDelay > 0) || !eqMap(oj.Env, sp.Def.Env) {
+			return false
+		}
+		for _, t := range oj.Tasks {
+			if !eqStr(t.Script, sp.Def.Tasks[t.Name].Script) {
+				return false
+			}
+		}
+		// the immediate effect of the decision
+		switch decide {
+		case model.ResStarted:
+			return oj.Start != nil || (oj.Canceled && oj.HasError)
+		case model.ResQueued, model.ResReplaced:
+			return oj.Start == nil
+		}
+		return true
+	}
+	var oj *core.JobSnap
+	if id != "" {
+		if j, ok := q.sys.ReadJob(id); ok {
+			oj = &j
+		}
+	}
+	asOld := matches(oldSpec, decideOld, oj)
+	asNew := matches(newSpec, decideNew, oj)
+	if !asOld && !asNew {
+		detail := "rejected"
+		if oj != nil {
+			var names []string
+			for _, t := range oj.Tasks {
+				names = append(names, t.Name)
+			}
+			detail = fmt.Sprintf("tasks %v startDelay>0=%v env=%v started=%v", names, oj.StartDelay > 0, oj.Env, oj.Start != nil)
+		}
+		q.find([]string{"C16", "C13", "C05"}, "C16:job-accepted-against-a-mix-of-two-definitions", "a reload (%s) arrived while a schedule request for %s was being accepted; the result %q / %s is explained neither by the old definition (decision %s, tasks %v, delay %v) nor by the new one (decision %s, tasks %v, delay %v)", desc, p, cls, detail, decideOld, oldSpec.Graph.Names, oldSpec.Def.StartDelay > 0, decideNew, newSpec.Graph.Names, newSpec.Def.StartDelay > 0)
+		q.dead = true // the model cannot follow a mixed acceptance
+		q.specs = newSpecs
+		return
+	}
+	useSpec, useCfgFirst := oldSpec, false
+	if !asOld {
+		useSpec, useCfgFirst = newSpec, true
+	}
+	if useCfgFirst {
+		q.m.SetCfg(gen.ModelCfg(newSpecs))
+	}
+	if cls == "ok" {
+		rec := &JobRec{Ord: len(q.jobs) + 1, ID: id, Pipe: p, Spec: gen.CopySpec(useSpec), Vars: vars, CallSeq: callSeq, RetSeq: retSeq, Accepted: t0}
+		q.jobs = append(q.jobs, rec)
+		q.byID[id] = rec
+		sim := model.NewJobSim(useSpec.SimTasks(), !useSpec.Def.ContinueRunningTasksAfterFailure)
+		q.m.Schedule(p, id, useSpec.Graph.Cyclic, sim)
+	}
+	q.m.SetCfg(gen.ModelCfg(newSpecs))
+	q.specs = newSpecs
+	q.settle(nil)
+}
+
+func (q *seqRun) noteConcurrencyOf(specs []gen.PipeSpec) {
+	if q.maxConc == nil {
+		q.maxConc = map[string]int{}
+	}
+	for _, sp := range specs {
 		if sp.Def.Concurrency > q.maxConc[sp.Name] {
 			q.maxConc[sp.Name] = sp.Def.Concurrency
 		}
